@@ -313,6 +313,7 @@ also('C15', 'a buffer that receives angles never takes its dtype from an input (
 also('C17', 'no call passes two bare names to a callee whose parameters carry those names in crossed positions (AR3 on dicke + utils); the asserts of the Dicke table '
             'constructors admit every (copies >= 1, dimension >= 2) the property quantifies over (DOM1).')
 also('C18', 'no public constructor hands out the array of an unfrozen memoised helper (O3B); where a function clamps an input parameter, a square-root radicand computed from it '
-            'is clamped itself (F8: closed forms vanish, not NaN, at the end point); each block of the six-parameter UPB reads only its own party\'s parameters (RP1).')
+            'is clamped itself (F8: closed forms vanish, not NaN, at the end point); each block of the six-parameter UPB reads only its own party\'s parameters (RP1); an if/elif dispatch on an asserted enumeration covers every admitted literal (EX1).')
 also('C20', 'an eigenvector taken from eigh / eigsh is a column `[:, k]`, never a row (EV1: numerical-range points attain the support function); a default-float buffer '
-            'never receives whole items of a sequence derived from the (possibly complex) input (DT4).')
+            'never receives whole items of a sequence derived from the (possibly complex) input (DT4); an if/elif dispatch on an asserted enumeration (method, kind, key) '
+            'covers every admitted literal (EX1, 3 chains).')
